@@ -30,3 +30,22 @@ Proof. exact sruns_local. Qed.
 Print Assumptions logged_shuffle_reads_do_not_interfere.
 Theorem logged_shuffle_seed_swapping_refuted : let st := sruns true (fun s => s * 3) 1 [SStart; SStart; SEnd 0; SEnd 1] in used st = [3; 9] /\ seed st = 3.
 Proof. exact sruns_mutating_refuted. Qed.
+
+(* pipes.Cache under EVERY history of events one Cache object can meet - complete reads, reads abandoned after k items, reads during which the
+   source raises at any item (fix 74dad9d: the partial cache is dropped), and replacement of the object by an unpickled copy of itself, in mid-read
+   or not: every read that ends normally returns exactly the prefix of the source it consumed (a complete read: the source), what a failing read
+   had yielded before the exception is a prefix of the source, and nothing else is ever served *)
+From Coba Require Import C04.ModelOps C04.ProofsOps.
+Theorem cache_survives_failures_and_pickling : forall (A : Type) (n : nat), 1 <= n -> forall (source : list A) (ops : list cop),
+  good source ops (run_ops n reset_now false source ops init).
+Proof. exact @fresh_cache_ops. Qed.
+Print Assumptions cache_survives_failures_and_pickling.
+(* the two ways this was (or can be) lost: an exhausted iterator taken for 'finished' after the source raised; a __getstate__ that keeps a partial cache *)
+Theorem cache_after_failed_read_refuted :
+  run_ops 2 reset_old false [1;2;3;4;5] [OFail 3; ORead None] init = [[1;2]; [1;2]] /\
+  run_ops 2 reset_now false [1;2;3;4;5] [OFail 3; ORead None] init = [[1;2]; [1;2;3;4;5]].
+Proof. exact failed_read_old_refuted. Qed.
+Theorem cache_pickle_keeping_partial_refuted :
+  run_ops 2 reset_now true [1;2;3;4;5] [ORead (Some 1); OPickle; ORead None] init = [[1]; []; [1;2]] /\
+  run_ops 2 reset_now false [1;2;3;4;5] [ORead (Some 1); OPickle; ORead None] init = [[1]; []; [1;2;3;4;5]].
+Proof. exact pickle_keeping_partial_refuted. Qed.
